@@ -52,8 +52,10 @@ pub struct BuildObs {
   /// model state at that point
   pub supplied: BTreeMap<String, (u32, Value)>,
   pub ack: bool,
-  /// exp supplied (once) after the acknowledgement
+  /// exp supplied (at least once) after the acknowledgement
   pub exp_after_ack: bool,
+  /// how many times exp was supplied before the (first) acknowledgement
+  pub exp_before_ack: u32,
   pub builds_before: usize,
   /// 0 or 1: which of the two builders
   pub builder: usize,
@@ -79,6 +81,7 @@ pub fn interpret(c: &HistCase) -> Run {
   let mut supplied: [BTreeMap<String, (u32, Value)>; 2] = [BTreeMap::new(), BTreeMap::new()];
   let mut ack = [false, false];
   let mut exp_after_ack = [false, false];
+  let mut exp_before_ack = [0u32, 0u32];
   let mut footer: [Option<&str>; 2] = [None, None];
   let mut assertion: [Option<&str>; 2] = [None, None];
   let mut nbuilds = [0usize, 0usize];
@@ -93,8 +96,12 @@ pub fn interpret(c: &HistCase) -> Run {
           let e = supplied[w].entry(spec.key().to_string()).or_insert((0, Value::Null));
           e.0 += 1;
           e.1 = spec.expected();
-          if spec.key() == "exp" && ack[w] {
-            exp_after_ack[w] = true;
+          if spec.key() == "exp" {
+            if ack[w] {
+              exp_after_ack[w] = true;
+            } else {
+              exp_before_ack[w] += 1;
+            }
           }
         }
       }
@@ -128,7 +135,7 @@ pub fn interpret(c: &HistCase) -> Run {
             }
           }
         };
-        run.builds.push(BuildObs { index: i, result, supplied: supplied[w].clone(), ack: ack[w], exp_after_ack: exp_after_ack[w], builds_before: nbuilds[w], builder: w });
+        run.builds.push(BuildObs { index: i, result, supplied: supplied[w].clone(), ack: ack[w], exp_after_ack: exp_after_ack[w], exp_before_ack: exp_before_ack[w], builds_before: nbuilds[w], builder: w });
         nbuilds[w] += 1;
       }
     }
@@ -354,6 +361,12 @@ pub fn random_op() -> BoxedStrategy<BOp> {
     2 => time_string().prop_map(|s| BOp::Set(ClaimSpec::Iat(s))),
     2 => time_string().prop_map(|s| BOp::Set(ClaimSpec::Nbf(s))),
     1 => gen::jsonish(8).prop_map(|s| BOp::Set(ClaimSpec::Exp(s))),
+    // timestamps in a near-miss format (ISO 8601 but not RFC 3339, decorated, impossible dates): whichever of them the
+    // claim constructor accepts is a supplied value like any other
+    2 => (time_string(), 0u8..crate::c11::NEAR_MISS as u8, 0u8..4).prop_map(|(s, k, which)| {
+      let t = crate::c11::spoil(&s, k);
+      BOp::Set(match which { 0 => ClaimSpec::Exp(t), 1 => ClaimSpec::ExpOwned(t), 2 => ClaimSpec::Iat(t), _ => ClaimSpec::Nbf(t) })
+    }),
     2 => gen::short_text().prop_map(|t| BOp::Set(ClaimSpec::Sub(t.render()))),
     1 => gen::short_text().prop_map(|t| BOp::Set(ClaimSpec::Iss(t.render()))),
     1 => gen::short_text().prop_map(|t| BOp::Set(ClaimSpec::Aud(t.render()))),
